@@ -206,7 +206,8 @@ def render(tree, api):
             elif k == "select_list":
                 _, tgt, c, (tv, fv) = st
                 if api:
-                    emit(ind, "_.%s = if_then_else(%s, %s, %s)" % (tgt, ex(c), ex(tv), ex(fv)))
+                    lazy = hash((tgt, c, tv, fv)) % 3 == 0       # branches given as callables that return the lists
+                    emit(ind, "_.%s = if_then_else(%s, %s%s, %s%s)" % (tgt, ex(c), "lambda: " if lazy else "", ex(tv), "lambda: " if lazy else "", ex(fv)))
                 else:
                     emit(ind, "%s = list(%s) if (%s) else list(%s)" % (tgt, ex(tv), ex(c), ex(fv)))
             elif k == "if":
